@@ -127,7 +127,7 @@ func buildReport(eng *Engine, prop, tier string, seed int64, cases []*ReplayCase
 		clean := true
 		for s := range h.Paths {
 			switch s {
-			case "returned", stAssumeFalse, "panicked", "assert-failed":
+			case "returned", stAssumeFalse, "panicked", "assert-failed", stBound:
 			default:
 				clean = false
 			}
